@@ -228,6 +228,39 @@ def special_functions(ctx, rng):
                              f"algorithms.{name} / core.Algorithm.evaluate_all")
                     break
         ctx.case(("signed-zero", name), True)
+    # constraint values of small magnitude: strict inequalities satisfied by much less than the library's 1e-4 offset for strict
+    # operators, equalities missed by 1e-9; violation and feasibility judged by reading the declared expressions as relations
+    import operator as _op
+    rel = {"==": _op.eq, "<=": _op.le, ">=": _op.ge, "!=": _op.ne, "<": _op.lt, ">": _op.gt}
+    decl = [("<", 0.0), (">", 0.0), ("<=", 0.0), (">", -1e-6)]
+
+    def _tiny_f(x):
+        return [x[0] + x[1], (1 - x[0]) ** 2 + x[1]], [1e-5 * (x[0] - 0.7), 1e-5 * (x[1] + 0.1), 1e-7 * (x[0] - x[1]), 1e-6 * (x[0] - 0.5)]
+    for name in ("NSGAII", "GDE3", "SPEA2", "EpsMOEA"):
+        p = Problem(2, 2, 4, function=_tiny_f)
+        p.types[:] = Real(0, 1)
+        p.constraints[:] = [o + repr(y) for o, y in decl]
+        _random.seed(rng.randrange(2 ** 31))
+        alg = plat_call(lambda: A.EpsMOEA(p, epsilons=[0.05], population_size=8) if name == "EpsMOEA" else getattr(A, name)(p, population_size=8))
+        inp = {"algorithm": name, "constraints": [o + repr(y) for o, y in decl], "function": "constraint values of magnitude 1e-5 .. 1e-7 around their thresholds"}
+        r = plat_call(lambda: alg.run(200)) if not isinstance(alg, str) else alg
+        if isinstance(r, str):
+            ctx.notes.append(f"special-function run aborted: {name}: {r}")
+            continue
+        done = False
+        for coll, sols in tracer.exposed(alg).items():
+            for s_ in sols:
+                objs, cons = _tiny_f(list(s_.variables))
+                holds = all(rel[o](c, y) for (o, y), c in zip(decl, cons))
+                if list(s_.objectives) != objs or list(s_.constraints) != cons or (s_.constraint_violation == 0) != holds or bool(s_.feasible) != holds:
+                    ctx.fail("violation-contradicts-declared-constraints", dict(inp, collection=coll, variables=[repr(v) for v in s_.variables], constraint_values=cons),
+                             [s_.constraint_violation, s_.feasible], "violation 0 and feasible exactly when every declared relation holds" + (" (all hold here)" if holds else ""),
+                             f"algorithms.{name} / core.Problem.__call__")
+                    done = True
+                    break
+            if done:
+                break
+        ctx.case(("tiny-constraints", name), True)
     # optimum in a corner of the box: after a few generations most variables sit exactly on a bound, where the polynomial mutation
     # returns some of the variables it touches unchanged; checked after every step
     def _corner_f(x):
@@ -270,7 +303,7 @@ def special_functions(ctx, rng):
             if bad:
                 break
         ctx.case(("corner-optimum", name), True)
-    ctx.count("special_function_runs", 13)
+    ctx.count("special_function_runs", 17)
 
 
 def plat_call(f):
